@@ -39,6 +39,11 @@ func aliasListener(p *Prog, r *Result, rulePublish, ruleWrite, ruleEntry string)
 				where := l.p.Pos(ev.Instr.Pos())
 				switch {
 				case rulePublish != "" && ev.Struct == a.Search && ev.Field == a.SearchFields:
+					if ev.VNil != triNo {
+						l.bad(rulePublish, fn, "result slice stored in a Search is non-nil", "a Search can be given a nil result slice (e.g. append(nil, empty...)): the refinements use 'constraint != nil' to mean 'restrict to the previous result', so And on an empty result would run unconstrained and return (or delete) everything that matches its own comparison", where, x, st, ev.Instr)
+					} else {
+						l.ok(rulePublish, fn, "result slice stored in a Search is non-nil", where)
+					}
 					if ev.VTags&TLive != 0 {
 						l.bad(rulePublish, fn, "result slice stored in a Search is fresh", "a Search is given a slice that aliases the live index (a sub-slice of a field index): later inserts and deletes shift the entries under it, so collecting the search afterwards returns objects that did not match when it was evaluated, and appends through it overwrite index entries", where, x, st, ev.Instr)
 					} else {
@@ -55,10 +60,39 @@ func aliasListener(p *Prog, r *Result, rulePublish, ruleWrite, ruleEntry string)
 				if ruleWrite == "" || ev.Tags&TLive == 0 {
 					return
 				}
-				// inside the field index type's own mutators the live slice is the thing being maintained
+				// inside the field index type's own mutators the live slice is the thing being maintained:
+				// an append whose result is stored back into the index field, or an element store in a
+				// function that also re-assigns the index field
 				fn := st.top().fn
 				if fn.Signature.Recv() != nil && named(fn.Signature.Recv().Type()) == a.FieldIndex {
-					return
+					storesBack := func(v ssa.Value) bool {
+						if refs := v.Referrers(); refs != nil {
+							for _, rf := range *refs {
+								if sto, ok := rf.(*ssa.Store); ok && sto.Val == v {
+									if n, f, _ := fieldOf(sto.Addr); n == a.FieldIndex && f == a.FIIndex {
+										return true
+									}
+								}
+							}
+						}
+						return false
+					}
+					if call, ok := ev.Instr.(*ssa.Call); ok {
+						if storesBack(call) {
+							return
+						}
+					} else {
+						// element store: the function must be a maintainer of the slice (re-assigns the field)
+						for _, b := range fn.Blocks {
+							for _, in := range b.Instrs {
+								if sto, ok := in.(*ssa.Store); ok {
+									if n, f, _ := fieldOf(sto.Addr); n == a.FieldIndex && f == a.FIIndex {
+										return
+									}
+								}
+							}
+						}
+					}
 				}
 				l.bad(ruleWrite, FuncName(fn), "no append/store through an alias of the live index", "an append or element store goes through a slice that aliases the live index outside the index type's own mutators: with spare capacity it overwrites index entries in place", l.p.Pos(ev.Instr.Pos()), x, st, ev.Instr)
 			}
@@ -224,7 +258,7 @@ func checkC02(p *Prog, r *Result, tier string) {
 		jobs = append(jobs, exploreJob{f, Valuation{Cache: triNo, Async: triNo}})
 		r.Entries = append(r.Entries, FuncName(f))
 	}
-	exploreAll(p, c, jobs, EffSet{}, r, aliasListener(p, r, "", "C02.R5", ""), nil)
+	exploreAll(p, c, jobs, EffSet{}, r, aliasListener(p, r, "C02.R6", "C02.R5", ""), nil)
 	r.Report("C02.R5", "search entries", "explored for alias writes", Discharged, "violations are reported per site", "", nil, true)
 	checkAndOrPlumbing(p, c, r, "C02.R6")
 }
